@@ -5,7 +5,17 @@
    model).  The run-time half (CallFunction pushes a frame and runs the code at the label of the pointer's
    handle, parameter binding, Return) is proved on the VM model in Cao.VmCallProofs and linked to the
    compile-time half in Cao.VmCallLink (section "run-time half" at the end of this file); the C08
-   correspondence stream checks the same on the real Vm. *)
+   correspondence stream checks the same on the real Vm.
+   Last section: the FunctionPointer / CallFunction pair of every Call card (at any nesting) is ADJACENT in the
+   returned program and carries the designated handle / arity (C08_program_call_layout, C08_call_pair_in_program,
+   with the run-time half: C08_call_card_executes_designated_body - Cao.CompilerCallPair, CompilerCallPairProg,
+   VmCallPairLink), and the innermost locals list is empty where the body of a function or closure starts
+   (C08_function_body_starts_without_locals, C08_card_keeps_scopes, C08_closure_body_starts_without_locals,
+   C08_param_binding_compiled - Cao.CompilerLocalsEmpty, CompilerLocalsEmptyProg).
+   Still open: a callee value that reaches CallFunction through other instructions than a Function card
+   (DynamicCall of an arbitrary expression: C08_vm_call_function applies to whatever function object is popped);
+   the end-to-end statement "running the compiled Call card returns what the body of the designated function
+   computes" is C01's simulation, not restated here; N-C08-3 (a static call of `main`) stays a finding. *)
 From Coq Require Import List NArith ZArith.
 From Cao Require Import ListUtil Bits CardAst Bytecode Compiler StdlibGen ResolveSpec CompilerResolve ResolveProofs
   ResolveTree CompilerProofs CompilerLabels CompilerCalls C08Examples C15Link
@@ -487,8 +497,9 @@ Print Assumptions C08_vm_params_are_locals.
    is compiled to ReadLocalVar (n - 1 - m); the arity the jump table / FunctionPointer carry is n.
    VM side: the call of a function object of arity n with k >= n values vals on top of low: ReadLocalVar (n-1-m),
    wherever it lies, executed in the callee's frame while the stack begins with low ++ vals, pushes vals[k-1-m].
-   (That the locals list IS empty where compile_other / a closure body starts - it is [[]] initially and each
-   scope_end pops what the function declared - is not proved here.) *)
+   (That the locals list IS empty where compile_other / a closure body starts is
+   C08_function_body_starts_without_locals / C08_closure_body_starts_without_locals below; C08_param_binding_compiled
+   is this theorem without the two hypotheses on c0.) *)
 Theorem C08_param_binding :
   forall (f : function_ir) c0 c1 m,
     cs_locals c0 <> [] -> hd [] (cs_locals c0) = [] -> NoDup (fi_args f) ->
@@ -532,11 +543,10 @@ Print Assumptions C08_param_binding.
          parameters, cards, module path, imports), so with at least ar values on the stack and a free call frame
          the CallFunction continues exactly there, in a new frame {src = address of the CallFunction, dst = the
          next instruction, offset = height - ar}.
-   Not covered: that every Call card yields such an adjacent pair IN THE RETURNED PROGRAM (C08_call_card_emits_pair
-   below: process_card of a Call card appends the two next to each other; that the rest of the compilation only
-   prepends and patches jump operands is not proved in this form - C08_call_resolves has the pair adjacent in
-   the call skeleton), and a callee value that reaches CallFunction through other instructions (DynamicCall of
-   an expression): there C08_vm_call_function applies to whatever function object is popped. *)
+   That every Call card yields such an adjacent pair IN THE RETURNED PROGRAM is C08_call_pair_in_program below, and
+   C08_call_card_executes_designated_body is this theorem with the hypothesis discharged for Call cards.
+   Not covered: a callee value that reaches CallFunction through other instructions (DynamicCall of an
+   expression): there C08_vm_call_function applies to whatever function object is popped. *)
 Theorem C08_call_executes_designated_body :
   forall F bld reenter M o B,
     compile M o = COk B ->
